@@ -67,6 +67,11 @@ def check(run) -> None:
             run.notes.append(f"compile failure (C06): {o['id']}") if len(run.notes) < 8 else None
             continue
         traces.append(o["trace"])
+    # a decorated scenario is compared with its plain twin (same scenario without the decoration)
+    plain = {t["id"]: t for t in traces}
+    for t in traces:
+        twin = plain.get(t["id"][:-len("-decor")]) if t["id"].endswith("-decor") else None
+        t["twin"] = twin["ev"] if twin is not None else t["ev"]
     verdicts = validate("BoardTrace", "BoardTrace.cfg", traces, run, label="scenarios") if traces else {}
     byid = {o["id"]: o for o in outs}
     if traces:
@@ -107,6 +112,11 @@ def replay(path: str) -> int:
         if "trace" not in o:
             print(json.dumps({k: o.get(k) for k in ("transpile", "msg", "compile")}))
             return 0
+        o["trace"]["twin"] = o["trace"]["ev"]
+        if r["scenario"].get("decor"):
+            o2 = board.run_scenario(dict(r["scenario"], decor=False))
+            if "trace" in o2:
+                o["trace"]["twin"] = o2["trace"]["ev"]
         v = validate("BoardTrace", "BoardTrace.cfg", [o["trace"]])[o["id"]]
         print(json.dumps(v))
         if not v["ok"]:
@@ -132,13 +142,14 @@ def selftest(seed: int) -> int:
     sc = {"kind": "led", "place": "before", "use": "loop", "nb": 1, "hasloop": True, "other": "none"}
     o = board.run_scenario(sc)
     t = o["trace"]
+    t["twin"] = t["ev"]
     import copy
     a = copy.deepcopy(t); a["id"] = "late-pinmode"
     i = next(k for k, e in enumerate(a["ev"]) if e["e"] == "pm" and e["p"] == 5)
-    pm = a["ev"].pop(i); a["ev"].append(pm)
+    pm = a["ev"].pop(i); a["ev"].append(pm); a["twin"] = a["ev"]
     b = copy.deepcopy(t); b["id"] = "double-poll"
     j = max(k for k, e in enumerate(b["ev"]) if e["e"] == "poll")
-    b["ev"].insert(j, b["ev"][j])
+    b["ev"].insert(j, b["ev"][j]); b["twin"] = b["ev"]
     v = validate("BoardTrace", "BoardTrace.cfg", [t, a, b])
     print(v)
     return 0 if v[t["id"]]["ok"] and v["late-pinmode"]["clause"] == "output-before-pinMode" and v["double-poll"]["clause"] == "button-sampled-twice-in-pass" else 1
